@@ -314,6 +314,27 @@ fn huff_profile_cases(r: &mut Rng, t: Tier, fam: &str, ops: &[&str], extra: &[&s
             c.l(e.to_string());
         }
         tree_queries(r, &mut c, &v, ty.1, 300, ops, true);
+        // a second tree in the same case over the *same multiset of counts attached to other symbols* (most and
+        // least frequent symbol exchanged): same n, same symbol set, same frequency profile, different text —
+        // whatever the first construction left behind (caches, scratch state) must not leak into the second
+        if alph >= 2 && v.len() <= 120_000 {
+            let hi = (0..alph).max_by_key(|&k| freqs[k]).unwrap();
+            let lo = (0..alph).min_by_key(|&k| freqs[k]).unwrap();
+            if freqs[hi] != freqs[lo] {
+                let (a, b) = (syms[hi], syms[lo]);
+                let v2: Vec<u128> = v.iter().map(|&x| if x == a { b } else if x == b { a } else { x }).collect();
+                c.l(format!("tie {}", r.next() | 1));
+                c.l(format!("mk 1 {} {}", fam, join(&v2)));
+                c.l("lenschk 1");
+                for e in extra {
+                    c.l(e.replace(" 0", " 1"));
+                }
+                let mut c2 = Case::new(fam);
+                tree_queries(r, &mut c2, &v2, ty.1, 60, ops, true);
+                c.lines.extend(retarget(&c2.lines, 0, 1));
+                c.tag("second=permuted");
+            }
+        }
         out.push(c);
     }
 }
@@ -1148,6 +1169,23 @@ fn qv_path_cases(r: &mut Rng, t: Tier, n_cases: usize, space: bool, out: &mut Ve
             // size hint with a positive lower bound and no upper bound (header of h values + filtered rest)
             format!("mk 11 qvchain {} {}", *r.pick(&[0usize, 1, 255, 256, 257, 512, 768, 1024, n / 2, n]), js),
             format!("mk 12 qvchain {} {}", 256 * r.range(0, (n / 256) as u64) as usize, js),
+            // a `filter` that really drops elements (upper size-hint bound above what is yielded)
+            format!("mk 15 qvfilt {}", {
+                let mut toks: Vec<String> = vec![];
+                let drop_rate = *r.pick(&[2u64, 10, 300]);
+                for x in &vals {
+                    while r.below(drop_rate) == 0 && toks.len() < 4 * n + 600 {
+                        toks.push(format!("x{}", r.below(4)));
+                    }
+                    toks.push(x.to_string());
+                }
+                for _ in 0..r.range(0, 600) {
+                    toks.push("x1".into());
+                }
+                toks.join(" ")
+            }),
+            // From<Vec> of a vector with spare capacity
+            format!("mk 16 qwt:fromcap {}", js),
         ];
         for (k, mk) in mks.iter().enumerate() {
             c.l(mk.trim_end().to_string());
@@ -1155,9 +1193,12 @@ fn qv_path_cases(r: &mut Rng, t: Tier, n_cases: usize, space: bool, out: &mut Ve
                 c.l(format!("space {}", k));
             }
         }
-        for k in [1usize, 2, 3, 4, 5, 11, 12] {
+        for k in [1usize, 2, 3, 4, 5, 11, 12, 15] {
             c.l(format!("eq 0 {}", k));
         }
+        c.l("eq 10 16");
+        c.l("dump 15");
+        c.l("dump 16");
         // a source that is not fused: None after k values (not on a line / word boundary, and on one), more
         // values if polled again — `collect` and `extend` must stop at the first None
         for (slot, kind) in [(13usize, "qvnf"), (14, "qvnfext")] {
@@ -1389,6 +1430,15 @@ fn scale_cases(prop: &str, r: &mut Rng, out: &mut Vec<Case>) {
                 bits(r, &["da"], 1_200_000, shape, &["get", "select1", "select0"], out);
             }
         }
+        "C15" => {
+            // code depths that only long inputs reach: the deepest legal quad code and a 30-level binary code
+            for (fam, lv) in [("hqwt", 16usize), ("hqwt", 12), ("hwt", 30), ("hwt", 24)] {
+                let mut c = deepcode_levels(fam, lv);
+                c.l("space 0");
+                c.l("q 0 n_levels");
+                out.push(c);
+            }
+        }
         "C04" | "C11" | "C19" => {
             tree(r, "qwt", cfg_a, TYS[0], big(cfg_a), 0, &["get", "rank", "select"], out);
             rsq(r, 512, 2_300_000, 0, &["rank", "select"], out);
@@ -1504,6 +1554,20 @@ fn utils_cases(r: &mut Rng, t: Tier, out: &mut Vec<Case>) {
         let ws: Vec<u64> = (0..len).map(|_| if r.chance(1, 4) { u64::MAX } else { r.next() }).collect();
         c.l(format!("u popcnt_wide {} {}", n, join(&ws)));
     }
+    // many words (accumulator widths): all ones, one byte lane saturated in every word, random
+    for _ in 0..scale(t, 60, 400) {
+        let n = *r.pick(&[31u64, 32, 33, 64, 100]);
+        let len = n + r.below(40);
+        let pat = r.below(4);
+        let lane = 0xFFu64 << (8 * r.below(8));
+        let ws: Vec<u64> = (0..len).map(|_| match pat {
+            0 => u64::MAX,
+            1 => lane | (r.next() & r.next()),
+            2 => r.next(),
+            _ => if r.chance(7, 8) { u64::MAX } else { r.next() },
+        }).collect();
+        c.l(format!("u popcnt_wide {} {}", n, join(&ws)));
+    }
     for (_, bits) in TYS.iter().filter(|x| x.0 != "usize") {
         for k in 0..*bits {
             let v: u128 = 1u128 << k;
@@ -1515,6 +1579,7 @@ fn utils_cases(r: &mut Rng, t: Tier, out: &mut Vec<Case>) {
     }
     out.push(c);
     // partitions: all widths, all shifts
+    let mut c2_lines: Vec<String> = vec![];
     for (_, bits) in TYS.iter().filter(|x| x.0 != "usize") {
         let mut c = Case::new("utils");
         c.l("cfg 256 0 8 * u8");
@@ -1532,6 +1597,24 @@ fn utils_cases(r: &mut Rng, t: Tier, out: &mut Vec<Case>) {
             }
             c.l(format!("u part2 {} {} {}", bits, shift, join(&vals)));
         }
+        // long inputs (size-gated code paths): a few thousand elements at the shifts around the word boundaries
+        for &shift in [0u32, 1, 2, 30, 31, 32, 33, 62, 63, 64, 65, 126].iter().filter(|&&sh| sh + 1 < *bits) {
+            if t == Tier::Quick && r.chance(1, 2) {
+                continue;
+            }
+            let n = some_len(r, 6000).max(2100);
+            let vals: Vec<u128> = (0..n).map(|_| (((r.next() as u128) << 64) | r.next() as u128) & tmax).collect();
+            c2_lines.push(format!("u part4 {} {} {}", bits, shift, join(&vals)));
+            c2_lines.push(format!("u part2 {} {} {}", bits, shift, join(&vals)));
+        }
+        out.push(c);
+    }
+    {
+        let mut c = Case::new("utils");
+        c.l("cfg 256 0 8 * u8");
+        c.tag("partition:long");
+        c.nontrivial = true;
+        c.lines.extend(c2_lines);
         out.push(c);
     }
     partc_cases(r, t, &[2, 4], out);
@@ -1551,6 +1634,41 @@ fn utils_cases(r: &mut Rng, t: Tier, out: &mut Vec<Case>) {
 }
 
 /// known finding: a prefix code longer than 32 bits (17 quad levels / 33 binary levels)
+/// run-length input whose optimal code has exactly `levels` levels (quad: caterpillar, binary: Fibonacci)
+fn deepcode_levels(fam: &str, levels: usize) -> Case {
+    let mut c = Case::new(fam);
+    c.tag(format!("codedepth={}", levels));
+    c.tag("scale");
+    c.nontrivial = true;
+    let mut w: Vec<usize> = vec![];
+    if fam == "hqwt" {
+        let mut m: Vec<usize> = vec![1, 4];
+        w.extend([1, 1, 1, 1]);
+        for k in 2..(levels + 1) {
+            let tt = m[k - 2] + 1;
+            w.extend([tt, tt, tt]);
+            let nm = m[k - 1] + 3 * tt;
+            m.push(nm);
+        }
+    } else {
+        w.extend([1, 1]);
+        while w.len() < levels + 1 {
+            let n = w[w.len() - 1] + w[w.len() - 2];
+            w.push(n);
+        }
+    }
+    c.l("cfg 256 0 8 * u8");
+    c.l("tie 1");
+    let mut args = String::new();
+    for (s, cnt) in w.iter().enumerate() {
+        args.push_str(&format!(" {} {}", s, cnt));
+    }
+    c.l(format!("mk 0 {}:rle{}", fam, args));
+    c.l("lenschk 0");
+    c.l("q 0 len");
+    c
+}
+
 /// `over` = true: one level more than a 32-bit code word can hold (known finding); false: the deepest code
 /// the crate supports (16 quad levels / 32 binary levels), with every symbol queried
 fn deepcode_case(fam: &str, over: bool) -> Case {
@@ -2027,9 +2145,21 @@ pub fn cases(prop: &str, t: Tier, seed: u64) -> Vec<Case> {
                 let qs: Vec<String> = c.lines.iter().filter(|l| l.starts_with("q 0 ")).cloned().collect();
                 let mk_idx = c.lines.iter().position(|l| l.starts_with("mk 0")).unwrap();
                 c.lines.insert(mk_idx + 1, "enc 0".into());
-                c.lines.extend(qs); // every query twice
+                c.lines.extend(qs.clone()); // every query twice
                 c.l("enc 0");
                 c.l("threads 0");
+                // two deserialised copies of two different values, queried alternately with the same arguments:
+                // an answer must not depend on which value was queried before
+                if let Some(twin) = shorter_twin(&c.lines, 0, 5, false) {
+                    c.lines.extend(twin);
+                    c.l("mk 6 serde 0");
+                    c.l("mk 7 serde 5");
+                    for l in qs.iter().filter(|l| !l.contains("_unchecked")).take(20) {
+                        for sl in [6usize, 7, 6] {
+                            c.lines.extend(retarget(std::slice::from_ref(l), 0, sl));
+                        }
+                    }
+                }
                 out.push(c);
             }
             let mut tmp = vec![];
@@ -2082,15 +2212,23 @@ pub fn cases(prop: &str, t: Tier, seed: u64) -> Vec<Case> {
                 c.l(format!("mk 2 {}:iter {}", fam, vals));
                 c.l("mk 3 copy 0");
                 c.l("eq 0 3");
+                c.l(format!("mk 7 {}:fromcap {}", fam, vals).trim_end().to_string());
+                c.l(format!("mk 8 {}:iterx {}", fam, vals).trim_end().to_string());
                 if !huff {
                     c.l("eq 0 1");
                     c.l("eq 0 2");
+                    c.l("eq 0 7");
+                    c.l("eq 0 8");
                     c.l("dump 1");
                     c.l("dump 2");
+                    c.l("dump 7");
                 }
-                for s in [1usize, 2, 3] {
+                for s in [1usize, 2, 3, 7, 8] {
                     c.lines.extend(retarget(&qs0, 0, s));
                 }
+                // two deserialised copies of two different trees, queried alternately with the same arguments
+                // (a cache keyed by something a deserialised value does not carry would mix them up)
+                c.l("mk 11 serde 0");
                 // a different sequence never compares equal
                 let orig: Vec<u128> = vals.split(' ').filter(|x| !x.is_empty()).map(|x| x.parse().unwrap()).collect();
                 for (slot, kind) in [(4usize, r.below(3)), (6, 3 + r.below(3))] {
@@ -2098,6 +2236,15 @@ pub fn cases(prop: &str, t: Tier, seed: u64) -> Vec<Case> {
                         c.l(format!("mk {} {}:new {}", slot, fam, join(&other)));
                         c.l(format!("eq 0 {}", slot));
                         c.tag(format!("differs={}", kind));
+                        if slot == 6 {
+                            c.l("mk 12 serde 6");
+                            let sel: Vec<String> = qs0.iter().filter(|l| l.contains(" select ") || l.contains(" rank ")).take(12).cloned().collect();
+                            for l in &sel {
+                                for sl in [11usize, 12, 11] {
+                                    c.lines.extend(retarget(std::slice::from_ref(l), 0, sl));
+                                }
+                            }
+                        }
                     }
                 }
                 // the same numbers in a wider type
@@ -2130,6 +2277,21 @@ pub fn cases(prop: &str, t: Tier, seed: u64) -> Vec<Case> {
                         c.l("eq 0 1");
                         c.l("eq 0 2");
                         c.l("eq 0 3");
+                        // clone_from: the empty tree into a non-empty one and the other way round
+                        c.l(format!("mk 4 {}:new 3 1 2 0 3 3 1", fam));
+                        c.l(format!("mk 5 {}:new 3 1 2 0 3 3 1", fam));
+                        c.l(format!("mk 6 {}:new", fam));
+                        c.l("cf 4 0");
+                        c.l("eq 4 0");
+                        c.l("dump 4");
+                        c.l("cf 6 5");
+                        c.l("eq 6 5");
+                        c.l("dump 6");
+                        for k in [4usize, 6] {
+                            for q in ["len", "n_levels", "get 0", "get 6", "rank 3 7", "rank 0 0", "select 3 2", "iter"] {
+                                c.l(format!("q {} {}", k, q));
+                            }
+                        }
                     }
                     out.push(c);
                 }
@@ -2391,7 +2553,7 @@ pub fn cases(prop: &str, t: Tier, seed: u64) -> Vec<Case> {
                 let t: Vec<&str> = l.split(' ').collect();
                 if t.len() >= 3 && t[0] == "mk" {
                     let kind = t[2].split(':').next().unwrap_or("");
-                    if ["qv", "qvx", "qvpush", "rsq", "rsqdefault", "bvbits", "bvpos", "bvzpos", "bvnew", "bvzeros", "rsn", "rsw", "da", "dabits", "dapos", "dadefault", "rsndefault", "rswdefault"].contains(&kind) {
+                    if ["qwt", "hqwt", "wt", "hwt", "qv", "qvx", "qvpush", "rsq", "rsqdefault", "bvbits", "bvpos", "bvzpos", "bvnew", "bvzeros", "rsn", "rsw", "da", "dabits", "dapos", "dadefault", "rsndefault", "rswdefault"].contains(&kind) {
                         if let Ok(k) = t[1].parse::<usize>() {
                             if !slots.contains(&k) {
                                 slots.push(k);
